@@ -520,15 +520,22 @@ func TestBidWorker(t *testing.T) {
 	for {
 		line, err := rd.ReadBytes('\n')
 		if len(bytes.TrimSpace(line)) > 0 {
-			var in BidSeqIn
-			if jerr := json.Unmarshal(line, &in); jerr != nil {
+			var req workerReq
+			if jerr := json.Unmarshal(line, &req); jerr != nil {
 				fmt.Fprintf(out, "F bad request: %v\n", jerr)
 				t.Fatal(jerr)
 			}
-			runBidSessionReal(t, &in, func(o AuctionObs) {
+			emit := func(o AuctionObs) {
 				data, _ := json.Marshal(o)
 				fmt.Fprintf(out, "A %s\n", data)
-			})
+			}
+			switch {
+			case req.BidSeq != nil:
+				runBidSessionReal(t, req.BidSeq, emit)
+			case req.Relays != nil:
+				p, msg, all := runRelaysReal(t, req.Relays)
+				emit(AuctionObs{Panic: p, Message: msg, All: all})
+			}
 			fmt.Fprintln(out, "D")
 		}
 		if err != nil {
@@ -641,8 +648,15 @@ func crashMessage(stderr string) (string, bool) {
 	return "", false
 }
 
-// bidSession runs one session in the worker; a worker that dies is the panic of the auction in progress.
-func bidSession(t *testing.T, in *BidSeqIn) []AuctionObs {
+// workerReq: one request to the worker: a session of the builder-bid strategy, or one auction of the
+// relays path (p2_relays_test.go).
+type workerReq struct {
+	BidSeq *BidSeqIn `json:"bidseq,omitempty"`
+	Relays []RelayIn `json:"relays,omitempty"`
+}
+
+// workerCall runs one request in the worker; a worker that dies is the panic of the auction in progress.
+func workerCall(t *testing.T, in workerReq) []AuctionObs {
 	if theBidWorker == nil {
 		theBidWorker = startBidWorker(t)
 		t.Cleanup(stopBidWorker)
@@ -734,7 +748,7 @@ func (r BidRelayIn) reachesVerification() bool {
 }
 
 func runBidSeq(t *testing.T, in *BidSeqIn) result {
-	obs := bidSession(t, in)
+	obs := workerCall(t, workerReq{BidSeq: in})
 	res := result{}
 	auctions := make([]string, len(in.Auctions))
 	seenInvalid := map[KeyIn]int{}
